@@ -73,7 +73,8 @@ func (node *tagMacroNode) call(ctx *ExecutionContext, args ...*Value) (*Value, e
 	macroCtx.Private.Update(argsCtx)
 
 	for idx, argValue := range args {
-		macroCtx.Private[node.argsOrder[idx]] = argValue.Interface()
+		// (the *Value itself, like with and set do: its safe mark belongs to it)
+		macroCtx.Private[node.argsOrder[idx]] = argValue
 	}
 
 	var b bytes.Buffer
